@@ -170,6 +170,10 @@ func ecsAnswer(kind string, req *dns.Msg) (resp *dns.Msg) {
 	case "nx":
 		resp.Rcode = dns.RcodeNameError
 		resp.Ns = []dns.RR{soa(20, 20)}
+	case "nxsoahi":
+		// SOA whose own TTL is below its MINIMUM field.
+		resp.Rcode = dns.RcodeNameError
+		resp.Ns = []dns.RR{soa(10, 3600)}
 	case "servfail":
 		resp.Rcode = dns.RcodeServerFailure
 	case "refused":
